@@ -391,6 +391,158 @@ Proof.
   - apply map_map_unprot_inj.
 Qed.
 
+(** ** The other direction holds for every pair of texts: the same query always gets the same
+    signature text (the coded normaliser identifies more, never less) *)
+Section Refine.
+  Context {A : Type}.
+  Variables sepC sepF : A -> bool.
+  Hypothesis coarser : forall x, sepC x = true -> sepF x = true.
+
+  Lemma fields_refine : forall s, flat_map (fields sepF) (fields sepC s) = fields sepF s.
+  Proof.
+    induction s as [|c r IH]; [reflexivity|].
+    rewrite (fields_cons sepC c r). destruct (sepC c) eqn:Ec.
+    - cbn [flat_map]. rewrite IH. rewrite (fields_cons sepF c r). rewrite (coarser c Ec). reflexivity.
+    - destruct (fields sepC r) as [|w ws] eqn:Ef; [exfalso; exact (fields_nonnil sepC r Ef)|].
+      cbn [flat_map] in *. rewrite (fields_cons sepF c w). rewrite (fields_cons sepF c r).
+      destruct (sepF c).
+      + cbn [app]. rewrite IH. reflexivity.
+      + destruct (fields sepF w) as [|w0 ws0] eqn:Ew; [exfalso; exact (fields_nonnil sepF w Ew)|].
+        cbn [app] in *. rewrite <- IH. reflexivity.
+  Qed.
+
+  Lemma filter_flat_map {B C} (p : C -> bool) (f : B -> list C) (l : list B) :
+    filter p (flat_map f l) = flat_map (fun x => filter p (f x)) l.
+  Proof. induction l as [|x l IH]; [reflexivity|]. cbn. rewrite filter_app, IH. reflexivity. Qed.
+
+  Lemma flat_map_filter_nonempty {C} (f : list A -> list C) (l : list (list A)) :
+    f [] = [] -> flat_map f (filter nonempty l) = flat_map f l.
+  Proof.
+    intro Hf. induction l as [|x l IH]; [reflexivity|]. cbn [filter flat_map].
+    destruct x as [|a x]; cbn [nonempty].
+    - rewrite Hf. exact IH.
+    - cbn [flat_map]. rewrite IH. reflexivity.
+  Qed.
+
+  Lemma words_refine : forall s, words sepF s = flat_map (words sepF) (words sepC s).
+  Proof.
+    intro s. unfold words at 1. rewrite <- fields_refine. rewrite filter_flat_map.
+    unfold words at 2. symmetry.
+    apply (flat_map_filter_nonempty (fun x => filter nonempty (fields sepF x))). reflexivity.
+  Qed.
+End Refine.
+
+Lemma fields_app_nosep {A} (sep : A -> bool) : forall p r,
+  (forall d, In d p -> sep d = false) ->
+  fields sep (p ++ r) = match fields sep r with w :: ws => (p ++ w) :: ws | [] => [p] end.
+Proof.
+  induction p as [|c p IH]; intros r H.
+  - cbn [app]. destruct (fields sep r) as [|w ws] eqn:Ef; [|reflexivity].
+    exfalso. exact (fields_nonnil sep r Ef).
+  - cbn [app]. rewrite fields_cons. rewrite (H c (or_introl eq_refl)).
+    rewrite IH by (intros d Hd; apply H; right; exact Hd).
+    destruct (fields sep r); reflexivity.
+Qed.
+
+Lemma fields_to_lower : forall x, fields is_ws (to_lower x) = map to_lower (fields is_ws x).
+Proof.
+  induction x as [|c x IH]; [reflexivity|].
+  unfold to_lower in *. cbn [flat_map]. rewrite (fields_cons is_ws c x).
+  destruct (is_ws c) eqn:Ec.
+  - rewrite (lower_cp_ws c Ec). cbn [app]. rewrite fields_cons, Ec. rewrite IH. reflexivity.
+  - rewrite (fields_app_nosep is_ws (lower_cp c) (flat_map lower_cp x)).
+    + rewrite IH. destruct (fields is_ws x) as [|w ws] eqn:Ef; [exfalso; exact (fields_nonnil is_ws x Ef)|].
+      cbn [map flat_map]. reflexivity.
+    + intros d Hd. exact (lower_cp_nonws c d Ec Hd).
+Qed.
+
+Lemma nonempty_to_lower : forall w, nonempty (to_lower w) = nonempty w.
+Proof.
+  intros [|c w]; [reflexivity|]. unfold to_lower. cbn [flat_map nonempty].
+  destruct (lower_cp c) eqn:E; [exfalso; exact (lower_cp_nonnil c E)|]. reflexivity.
+Qed.
+
+Lemma words_to_lower : forall x, words is_ws (to_lower x) = map to_lower (words is_ws x).
+Proof.
+  intro x. unfold words. rewrite fields_to_lower. generalize (fields is_ws x). intro l.
+  induction l as [|w l IH]; [reflexivity|]. cbn [map filter]. rewrite nonempty_to_lower.
+  destruct (nonempty w); cbn [map]; rewrite IH; reflexivity.
+Qed.
+
+Lemma classify_from_fst : forall s st, map fst (classify_from st s) = s.
+Proof.
+  induction s as [|c r IH]; intro st; [reflexivity|].
+  destruct st; cbn [classify_from].
+  - destruct (c =? 39); [cbn; rewrite IH; reflexivity|].
+    destruct (c =? 34); [cbn; rewrite IH; reflexivity|].
+    destruct (c =? 96); [cbn; rewrite IH; reflexivity|].
+    destruct ((c =? 45) && match r with d :: _ => d =? 45 | [] => false end); cbn; rewrite IH; reflexivity.
+  - cbn. rewrite IH. reflexivity.
+  - cbn. rewrite IH. reflexivity.
+  - cbn. rewrite IH. reflexivity.
+  - cbn. rewrite IH. reflexivity.
+Qed.
+
+Lemma classify_fst : forall s, map fst (classify s) = s.
+Proof. intro s. apply classify_from_fst. Qed.
+
+Lemma to_lower_app : forall a b, to_lower (a ++ b) = to_lower a ++ to_lower b.
+Proof. intros. unfold to_lower. apply flat_map_app. Qed.
+
+Lemma to_lower_mlower_item : forall it, to_lower (map fst (mlower_item it)) = lower_cp (fst it).
+Proof.
+  intros [c p]. unfold mlower_item. cbn [fst snd]. destruct p.
+  - cbn [map fst]. unfold to_lower. cbn [flat_map]. apply app_nil_r.
+  - rewrite map_map. cbn [unprot fst]. rewrite map_id. unfold to_lower. apply lower_cp_idem.
+Qed.
+
+Lemma to_lower_mlower : forall w, to_lower (map fst (mlower w)) = to_lower (map fst w).
+Proof.
+  induction w as [|it w IH]; [reflexivity|].
+  change (mlower (it :: w)) with (mlower_item it ++ mlower w).
+  rewrite map_app. rewrite to_lower_app.
+  change (to_lower (map fst (it :: w))) with (lower_cp (fst it) ++ to_lower (map fst w)).
+  f_equal; [apply to_lower_mlower_item|exact IH].
+Qed.
+
+Definition fine_words (y : list item) : list (list Z) := words is_ws (to_lower (map fst y)).
+
+Lemma msep_is_ws : forall it : item, msep it = true -> is_ws (fst it) = true.
+Proof. intros [c p] H. unfold msep in H. cbn in *. apply andb_true_iff in H. exact (proj2 H). Qed.
+
+Definition isw_item (it : item) : bool := is_ws (fst it).
+
+Lemma fine_words_word : forall w : list item,
+  map to_lower (map (map fst) (words isw_item w)) = fine_words (mlower w).
+Proof.
+  intro w. unfold fine_words. rewrite to_lower_mlower. rewrite words_to_lower.
+  rewrite (words_map fst isw_item is_ws) by reflexivity. reflexivity.
+Qed.
+
+Lemma fine_words_list : forall l : list (list item),
+  map to_lower (map (map fst) (flat_map (words isw_item) l)) = flat_map fine_words (map mlower l).
+Proof.
+  induction l as [|w l IH]; [reflexivity|].
+  cbn [flat_map map]. rewrite !map_app. f_equal; [apply fine_words_word|exact IH].
+Qed.
+
+Lemma normal_words_via_marked : forall s,
+  map to_lower (split_ws s) = flat_map fine_words (map mlower (words msep (classify s))).
+Proof.
+  intro s. unfold split_ws.
+  transitivity (map to_lower (words is_ws (map fst (classify s)))).
+  - rewrite classify_fst. reflexivity.
+  - rewrite (words_map fst isw_item is_ws) by reflexivity.
+    rewrite (words_refine msep isw_item msep_is_ws).
+    apply fine_words_list.
+Qed.
+
+Theorem same_query_share_entry : forall s1 s2, same_query s1 s2 -> normalize s1 = normalize s2.
+Proof.
+  intros s1 s2 H. apply normalize_char. rewrite !normal_words_via_marked.
+  apply same_query_iff_map in H. rewrite H. reflexivity.
+Qed.
+
 (** ** The coded normaliser is not sound in general: four witnesses *)
 Definition t_sel_A : list Z := [83;69;76;69;67;84;32;39;65;39].              (* SELECT 'A' *)
 Definition t_sel_a : list Z := [83;69;76;69;67;84;32;39;97;39].              (* SELECT 'a' *)
